@@ -56,6 +56,8 @@ def pcanon_cfg(v):
             if 'b' in kw and kw['b'] != 3:
                 d['b'] = pcanon_cfg(kw['b'])
             return ['obj', 'LabObj', d]
+        if name == 'LabObjSet':
+            return ['obj', 'LabObjSet', {'tags': sorted(kw['tags'])}]
         return ['obj', name, {'x': pcanon_cfg(kw['x'])}]
     if isinstance(v, tuple) and v and v[0] == 'path':
         return ['p', v[1]] if v[1] is not None else ['N']
@@ -78,6 +80,8 @@ def received_cfg(v, gv):
         if name == 'LabObj':
             return ['obj', 'LabObj', {'a': received_cfg(kw['a'], gv), 'b': received_cfg(kw.get('b', 3), gv),
                                       'verbose': received_cfg(kw.get('verbose', False), gv)}]
+        if name == 'LabObjSet':
+            return ['obj', 'LabObjSet', {'tags': sorted(kw['tags'])}]
         return ['obj', name, {'x': received_cfg(kw['x'], gv)}]
     if isinstance(v, tuple) and v and v[0] == 'path':
         return ['p', subst_text(v[1], gv)] if v[1] is not None else ['N']
